@@ -259,6 +259,7 @@ func runC01(c *Ctx) {
 	}
 	checkWriterIntakeClosedWorld(c, "writer.intake-closed-world")
 	checkGenericErrorDiscipline(c, "pkg/cafs")
+	checkReadAtOffsetWithinLeaf(c, "read.offset-within-leaf")
 }
 
 // checkWriterHandoff: ownership of the buffer given to `go pFlush`.
